@@ -19,11 +19,15 @@ ASSUMPTIONS = ['attribute-valued slots (href, src, alt, footnote marker, {attr v
 
 ALPHA = gen.ALL_KEYWORDS + gen.INLINE_OPEN + ['a', 'b', 'foo', 'é', 'ש', '\U0001F600', ' ', ' ', '-', ' - ', '.', '|', '{', '}', '(a)', '1.', '\\', '\\\\', '*', '_', '/', 'x y',
                                                # characters that do not show: zero-width space/joiners, word joiner, BOM, soft hyphen, bidi marks, a combining accent
+                                               # every ASCII punctuation character on its own (an escape must never give one a special meaning), some digits and letters
+                                               ] + list('!"#$%&\'()*+,-./:;<=>?@[\\]^_`{|}~0159nrtuxNU') + [
                                                'a\u200bb', '\u200b', '\u2060', '\ufeff', '\u200d', '\u200c', '\u00ad', '\u200f', '\u202e', 'e\u0301']
 
 def rand_string(rng):
     while True:
-        s = ''.join(rng.choice(ALPHA) for _ in range(rng.randint(1, 5)))
+        # keywords and markers keep their weight: two thirds of the picks come from them, the rest from the whole alphabet
+        core = len(gen.ALL_KEYWORDS) + len(gen.INLINE_OPEN)
+        s = ''.join(rng.choice(ALPHA[:core]) if rng.random() < 0.5 else rng.choice(ALPHA) for _ in range(rng.randint(1, 5)))
         s = s.strip()          # leading/trailing whitespace of a line is layout (C12); an escaped trailing space is F9
         if s and '\n' not in s:
             return s
@@ -101,8 +105,8 @@ def correspondence(ctx):
 
 def search(ctx, budget):
     cs = list(getattr(ctx, '_cases', [])) + (cases(ctx, ctx.n(1500, 50000) * (budget - 1)) if budget > 1 else [])
-    # every keyword and marker on its own, in every position (exhaustive over alphabet x positions)
-    for tok in gen.ALL_KEYWORDS + gen.INLINE_OPEN:
+    # every atom of the alphabet on its own - keywords, markers, every ASCII punctuation character, the invisible characters - in every position
+    for tok in sorted(set(ALPHA)):
         t = tok.strip()
         if t:
             for pos in sorted(POSITIONS):
